@@ -410,6 +410,13 @@ func checkC03(p *core.Program, r *core.Report) {
 	}
 	checkShipReaction(p, r, R8)
 	r.Floor(R8, 2)
+
+	const R9 = "C03.R9 cancel-ends-both-waiting-states"
+	r.Rule(R9, "the abort entry ends terminal from PendingListen and from ReadyListen, for both roles (a trusted or auto-accepting server waits in ReadyListen too): a cancel that is ignored lets both sides complete (rule shared with C10.R3)")
+	checkAbortEntry(p, r, R9)
+	const R10 = "C03.R10 no-lock-order-cycle"
+	r.Rule(R10, "the lock-order graph of the repo has no cycle: an endpoint that deadlocks between its timer and its state mutex neither completes nor closes, while its peer gives up (rule shared with C08.R3)")
+	importRules(p, r, "C08", map[string]string{"C08.R3 lock-order": R10}, nil)
 	_ = reflect.TypeOf
 }
 
